@@ -64,7 +64,7 @@ func (t *TableInfo) RowidName() string {
 	for _, cand := range []string{"rowid", "_rowid_", "oid"} {
 		free := true
 		for _, c := range t.Cols {
-			if strings.EqualFold(c.Name, cand) {
+			if SameName(c.Name, cand) {
 				free = false
 			}
 		}
